@@ -89,6 +89,7 @@ def parseLabel (j : Json) : R Label := do
   | [.str "acquire", l] => return .acquire (← parseLk l)
   | [.str "release", l] => return .release (← parseLk l)
   | [.str "send", c] => return .send (← c.getNat?)
+  | [.str "recv"] => return .recv
   | [.str "end"] => return .fin
   | _ => throw s!"bad label {j.compress}"
 
